@@ -245,6 +245,47 @@ def locked_phase(pid, kinds=("ltmoveassign", "probe", "lock", "unlock")):
     return phase
 
 
+def streams_phase(pid, label, make_streams, also=(), what=""):
+    """a phase running dedicated K2 streams `make_streams(tier, rng) -> [(cfg, lines)]` on the real table; judged by the
+    reference oracle: failures attributed to `pid` (or to a property in `also`, which this phase re-attributes to `pid`)"""
+    def phase(res, tier):
+        rng = random.Random(C.seed() * 131071 + sum(ord(x) for x in pid + label))
+        streams = make_streams(tier, rng)
+        bins = k2.build_all([c for c, _ in streams])
+        n = nbad = nops = 0
+        for cfg, lines in streams:
+            ok, exe, log = bins[cfg.key()]
+            if not ok:
+                res.add_broken("K2 harness %s does not compile against /repo" % cfg.key(), log)
+                continue
+            rc, out, dt = C.sh([exe], input="\n".join(lines) + "\n", timeout=C.scaled(300))
+            cpp = out.splitlines()
+            n += 1
+            nops += len(lines)
+            orc = k2.RefMap(cfg)
+            for i, (ln, got) in enumerate(zip(lines, cpp)):
+                try:
+                    orc.step(i, ln, got)
+                except (ValueError, IndexError, KeyError):
+                    break
+            mine = [f for f in orc.fails if f["property"] == pid or f["property"] in also]
+            if rc != 0 and not mine:
+                mine = [{"property": pid, "op_index": len(cpp), "op": lines[len(cpp)] if len(cpp) < len(lines) else "<end>",
+                         "implementation_answer": "<crash rc=%s>" % rc, "why": "the harness crashed / was killed: " + out[-400:]}]
+            if mine:
+                nbad += 1
+                f = dict(mine[0])
+                f["property"] = pid
+                f.update({"config": cfg.name(), "cfg_line": cfg.line(), "prefix": lines[:f["op_index"] + 1]})
+                if len(res.failing) < 3:
+                    res.add_failing(f)
+        if nbad:
+            res.add_broken("K2 %s streams: %s (%d of %d streams)" % (label, what or ("the reference oracle reports a violation of " + pid), nbad, n))
+        res.cov["k2_%s_streams" % label] = n
+        res.cov["k2_%s_requests" % label] = nops
+    return phase
+
+
 def replay(pid, path):
     d = json.load(open(path))
     print(json.dumps({k: d[k] for k in d if k != "failing_inputs"}, indent=1)[:3000])
